@@ -222,7 +222,9 @@ func c16Judge(c *rep.Ctx, cs c16Case) {
 		return // C12's business; the CLI crash (if any) was reported above
 	}
 	success := !usage && lerr == nil
-	if cs.Stdout != "pipe" && success && (lout != "" || cs.Cmd == "output") && lout != "" {
+	// /dev/full rejects every byte. A stdout that is CLOSED at exec time is a different matter: the Go runtime
+	// re-opens fds 0-2 on /dev/null at start-up, so the program's writes succeed and exit 0 is truthful there.
+	if cs.Stdout == "full" && success && lout != "" {
 		success = false // the output could not be delivered
 	}
 	if success && cli.code != 0 {
@@ -233,7 +235,7 @@ func c16Judge(c *rep.Ctx, cs c16Case) {
 		switch {
 		case usage:
 			why = "usage-error"
-		case cs.Stdout != "pipe" && lerr == nil:
+		case cs.Stdout == "full" && lerr == nil:
 			why = "stdout-" + cs.Stdout
 		case cs.Input == "missing":
 			why = "file-open-error"
